@@ -67,7 +67,8 @@ Viol(k) ==
     <<[Field(Nm(k), "Coords") EXCEPT !.hardkind = "ok", !.hardtext = "1"]>>,                       \* R11 value on a struct
     <<[Field(Nm(k), "char") EXCEPT !.len = Lit(2)]>>,                                              \* R12
     <<[I0 EXCEPT !.tag = "length", !.name = Ln(k), !.type = "char", !.optional = TRUE],
-      [I0 EXCEPT !.tag = "array", !.name = Nm(k), !.type = "short", !.len = Ref(Ln(k))]>> >>       \* R8: a required array right after its own optional <length>
+      [I0 EXCEPT !.tag = "array", !.name = Nm(k), !.type = "short", !.len = Ref(Ln(k))]>>,         \* R8: a required array right after its own optional <length>
+    <<[I0 EXCEPT !.tag = "length", !.name = Ln(k), !.type = "char"], [Field(Nm(k), "char") EXCEPT !.len = Ref(Ln(k))]>> >>   \* R12: a length REFERENCE on a non-string field
 \* sequences, not sets: TLC cannot compare records whose fields hold different kinds of values
 CoreT(k) == << <<Field(Nm(k), "char")>>, <<[Field(Nm(k), "short") EXCEPT !.optional = TRUE]>>, <<[I0 EXCEPT !.tag = "break"]>>,
               <<[I0 EXCEPT !.tag = "dummy", !.type = "char", !.hard = <<0, 0>>, !.hardkind = "ok", !.hardtext = "0"]>> >>
